@@ -408,6 +408,7 @@ type Held struct {
 	Mon    *Monitor
 	Read   bool
 	Root   *types.Named
+	Class  string // wait class (waitlevel.go)
 	Borrowed bool // held by the goroutine that started this one (ghost borrows): protects against other threads' adds only
 }
 
@@ -422,6 +423,7 @@ type State struct {
 	Escaped   []escapedRef // objects handed to code outside the function through a channel: their receiver may edit them at any time
 	TokenSubject map[string]*Term // WaitGroup (term key) -> subject the token this goroutine holds is bound to
 	Lent      []string // locks lent to goroutines this function started (ghost borrows)
+	Oblig     []waitOblig // what this thread has to signal before it may block on lower classes (waitlevel.go)
 	Owned     []*Term // channels this goroutine alone may close (ghost owns): exempt from interference, also after being shared
 	Panicking bool
 	PanicVal  *Val
@@ -468,6 +470,7 @@ func (s *State) Clone() *State {
 		FreshList: s.FreshList[:len(s.FreshList):len(s.FreshList)],
 		FreshTypes: s.FreshTypes,
 		Owned:     s.Owned,
+		Oblig:     s.Oblig[:len(s.Oblig):len(s.Oblig)],
 		Lent:      s.Lent,
 		TokenSubject: s.TokenSubject,
 		Escaped:   s.Escaped,
